@@ -268,6 +268,7 @@ def _r2_handle_if(idx, rep):
 
 
 def handle_if_paths(idx, fi):
+    """eager enumeration: 3^4 flag answers x collect/quiet in the policy x csvpath attached or not (+ the None error)"""
     flags = ["self._ecm.do_i_stop()", "self._ecm.do_i_fail()", "self._ecm.do_i_print()", "self._ecm.do_i_raise()"]
 
     def collect(interp, call, recv, args, kwargs):
@@ -277,11 +278,31 @@ def handle_if_paths(idx, fi):
         interp.record_call("csvpath.print", args)
 
     it = Interp(idx, types={"self": "ErrorHandler"},
-                domains={f: [True, False, None] for f in flags},
                 handlers={"self._error_collector.collect_error": collect, "self._csvpath.print": prnt},
                 ignore=("logger.", "logging.", "time.", "warnings."))
-    it.domains["self._csvpath"] = [Obj("self._csvpath"), None]
-    return it.run_all(fi, args={"policy": Residual("policy"), "error": Residual("error")})
+    eager = {f: [True, False, None] for f in flags}
+    eager["self._csvpath"] = [Obj("self._csvpath"), None]
+    eager["__collect__"] = [True, False]
+    eager["__quiet__"] = [False, True]
+    consts = {f"OnError.{m}.value": m.lower() for m in ("RAISE", "QUIET", "COLLECT", "STOP", "FAIL", "PRINT")}
+    out = []
+    import itertools
+    keys = list(eager)
+    for vals in itertools.product(*[eager[k] for k in keys]):
+        cfg = dict(zip(keys, vals))
+        policy = (["collect"] if cfg["__collect__"] else []) + (["quiet"] if cfg["__quiet__"] else [])
+        st = dict(consts)
+        st.update({k: v for k, v in cfg.items() if not k.startswith("__")})
+        for p in it.run_all(fi, args={"policy": policy, "error": Obj("error")}, store=st):
+            p.cfg = cfg
+            # legacy accessors used by the judges
+            p.choices = [(k, v) for k, v in cfg.items()] + [("OnError.COLLECT.value in policy", cfg["__collect__"])] + list(p.choices)
+            out.append(p)
+    # the None error
+    for p in it.run_all(fi, args={"policy": [], "error": None}, store=dict(consts)):
+        p.choices = [("error is None", True)] + list(p.choices)
+        out.append(p)
+    return out
 
 
 def _r2_signal(idx, rep):
@@ -310,23 +331,25 @@ def _r2_do_i_fail(idx, rep):
 
 
 def do_i_table(idx, fi, override_prop, member):
-    """decision table of one ErrorCommsManager.do_i_* method"""
+    """decision table of one ErrorCommsManager.do_i_* method (eager over csvpath presence x override value)"""
     key = f"self._csvpath.{override_prop}"
-    it = Interp(idx, types={"self": "ErrorCommsManager"},
-                domains={"self._csvpath": [Obj("self._csvpath"), None], key: [True, False, None]})
-    paths = it.run_all(fi)
+    it = Interp(idx, types={"self": "ErrorCommsManager"})
+    st = {f"OnError.{m}.value": m.lower() for m in ("RAISE", "QUIET", "COLLECT", "STOP", "FAIL", "PRINT")}
+    paths = it.run_eager(fi, {"self._csvpath": [Obj("self._csvpath"), None], key: [True, False, None], "self._policy": [[member.lower()], ["other"], []]}, store=st)
     for p in paths:
-        cp = p.atom("self._csvpath")
-        ov = p.atom(key)
+        cp = p.cfg["self._csvpath"]
+        ov = p.cfg[key]
         kind, v = p.result
-        vt = v.text if isinstance(v, Residual) else v
+        if kind != "return":
+            return False, f"ends in {kind} {v}"
         if cp is not None and ov is not None:
-            if vt is not ov:
-                return False, f"with override {ov!r} returns {vt!r}"
+            if v is not ov:
+                return False, f"with the validation-mode override {ov!r} returns {v!r}; the csvpath's own setting must win"
         else:
-            if vt != f"OnError.{member}.value in self._policy":
-                return False, f"without an override returns `{vt}`, expected `OnError.{member}.value in self._policy`"
-    return True, f"{len(paths)} paths"
+            want = member.lower() in p.cfg["self._policy"]
+            if v is not want:
+                return False, f"without an override and policy {p.cfg['self._policy']} returns {v!r}; expected `'{member.lower()}' in policy` = {want}"
+    return True, f"{len(paths)} rows"
 
 
 def _r3(idx, rep):
